@@ -22,6 +22,12 @@ theorem locking_is_regular : Gen.irregularLocking = [] := by decide
     theorem family speaks about -/
 theorem no_object_pools : Gen.syncPools = [] := by decide
 
+/-- the concurrently used packages keep no package-level mutable state (a package variable holding a channel, a map or
+    a made container, or one that a function assigns to): such state is shared by every goroutine that enters the package
+    and has no receiver field the table could attribute it to (seeded change X18: a channel-based free list of datagram
+    buffers, through which a buffer had two owners). Like a pool it puts the code outside the abstraction. -/
+theorem no_package_level_state : Gen.packageLevelState = [] := by decide
+
 /-- no location of the extracted table has an unprotected conflicting pair of accesses -/
 theorem no_racy_location : racyLocations Gen.accessTable = [] := by decide +kernel
 
